@@ -155,3 +155,36 @@ Proof.
   { unfold after. destruct (dsteps g cf (init_state []) tr1) eqn:E; [reflexivity|]. exfalso. exact (tr1_reachable E). }
   exact (built_progress_acyclic gops cf tr1 (after tr1) S H1 H2 H3 H4).
 Qed.
+
+(* ---- C14: the report of a whole run (tr4: c fails, d is never started, e is skipped through
+   ErrorSkipParents of s) satisfies the hypotheses of the reporting theorems ---- *)
+From GO Require Import Proofs.DagReport.
+
+Example C14_report_hyps :
+  dsteps g cf (init_state []) tr4 = Some (after tr4) /\ all_done g (after tr4) = true /\
+  In D (vids g) /\ In (XTask C) (d_errs (after tr4)) /\ depends_on g D C.
+Proof.
+  split; [vm_compute; reflexivity|]. split; [vm_compute; reflexivity|]. split; [vm_compute; auto 10|].
+  split; [vm_compute; auto|]. apply dep_edge. vm_compute. auto.
+Qed.
+
+Example C14_report_fires :
+  d_thread (after tr4) D = NotSpawned /\
+  (d_errs (after tr4) = [] <-> d_handled (after tr4) = false /\
+     forall v, In v (vids g) -> In v (d_okdone (after tr4)) \/ In v (d_sp (after tr4)) \/ In v (d_marked (after tr4))).
+Proof.
+  destruct C14_report_hyps as (H1 & H2 & H3 & H4 & H5). split.
+  - exact (built_failed_blocks_dependents gops cf tr4 (after tr4) C D H1 H4 H5).
+  - exact (built_nil_iff gops cf tr4 (after tr4) H1 H2).
+Qed.
+
+Example C14_report_view :
+  d_errs (after tr4) = [XTask C; XSkipped D] /\ d_thread (after tr4) C = Gone /\
+  d_thread (after tr4) D = NotSpawned /\ ~ In D (d_marked (after tr4)) /\
+  d_thread (after tr4) E = NotSpawned /\ In E (d_marked (after tr4)) /\ d_sp (after tr4) = [S_] /\
+  d_okdone (after tr4) = [B; A].
+Proof.
+  split; [vm_compute; reflexivity|]. split; [vm_compute; reflexivity|]. split; [vm_compute; reflexivity|].
+  split; [vm_compute; intros [H|H]; [discriminate H | exact H]|].
+  split; [vm_compute; reflexivity|]. split; [vm_compute; auto|]. split; vm_compute; reflexivity.
+Qed.
